@@ -15,6 +15,8 @@ from verif.oracles.rma import ESIZE, typemap, type_elem, span
 OPS_INT = ["SUM", "MAX", "MIN", "BAND", "BOR", "BXOR", "LAND", "LOR", "LXOR"]
 OPS_UNS = OPS_INT + ["PROD"]
 OPS_DBL = ["SUM", "MAX", "MIN", "PROD"]
+# profiles that allow exactly one of the constructs for which SMPI has a known defect ("clean" allows none of them)
+TRIGGERS = ["t-unlock", "t-cas", "t-mixed", "t-vecacc", "t-gaccrep", "t-fencepscw"]
 
 
 class G:
@@ -297,13 +299,14 @@ class G:
         from verif.oracles.rma import initval
         return initval(self.prog["wins"][w], t, idx)
 
-    def phase_fence(self, w):
+    def phase_fence(self, w, nep=None, last=None):
         r = self.rng
         tg = self.targets(w)
         pairs = [(o, t) for o in range(self.np) for t in tg]
-        nep = r.choice([1, 1, 2, 2, 3])
+        nep = nep or r.choice([1, 1, 2, 2, 3])
         first = 4 if r.random() < 0.4 else 0          # MPI_MODE_NOPRECEDE
-        last = 8 if r.random() < 0.4 else 0           # MPI_MODE_NOSUCCEED
+        if last is None:
+            last = 8 if r.random() < 0.4 else 0       # MPI_MODE_NOSUCCEED
         ranks = {q: [{"o": "FENCE", "w": w, "a": first}] for q in range(self.np)}
         for e in range(nep):
             ops = self.epoch_ops(w, pairs, r.randint(2, 3 * self.np))
@@ -314,7 +317,7 @@ class G:
             ranks[q] += self.shows(ranks[q])
         return {"kind": "fence", "w": w, "ranks": {str(q): ranks[q] for q in ranks}}
 
-    def phase_pscw(self, w):
+    def phase_pscw(self, w, both=False):
         r = self.rng
         tg = self.targets(w)
         origins = [q for q in range(self.np) if r.random() < 0.6] or [r.randrange(self.np)]
@@ -324,6 +327,10 @@ class G:
             acc[o] = sorted(r.sample(tg, k))
             if r.random() < 0.8 and len(tg) > 1:
                 acc[o] = [t for t in acc[o] if t != o] or acc[o]
+        if both:      # two ranks exposing their window to each other
+            a, b = r.sample(tg, 2) if len(tg) >= 2 else (tg[0], tg[0])
+            acc[a] = sorted(set(acc.get(a, []) + [b]))
+            acc[b] = sorted(set(acc.get(b, []) + [a]))
         exp = {}
         for o, ts in acc.items():
             for t in ts:
@@ -484,13 +491,14 @@ class G:
         cls = {}
         for t in hot_t:
             for e in self.hot_elems(w, t, r.choice([2, 3, 4])):
-                c = r.choice(["A", "A", "A", "REP", "CAS", "R", "W"])
+                c = r.choice(["A", "A", "A", "REP", "CAS", "R", "W"] if self.profile != "t-gaccrep" else ["REP", "REP", "A"])
                 if c == "CAS" and (et == "d" or (self.cas_safe and len(part) > 1)):
                     c = "A"
                 if c == "A":
                     cls[(t, e)] = ("A", r.choice(self.ops_for(et)))
                 elif c == "REP":
-                    cls[(t, e)] = ("A", "REPLACE")
+                    # MPI_REPLACE is the one non-commutative operator: plain accumulates and fetching ones together only in t-gaccrep
+                    cls[(t, e)] = ("A", "REPLACE", "both" if self.profile == "t-gaccrep" else r.choice(["acc", "fetch"]))
                 elif c == "W":
                     cls[(t, e)] = ("W", r.choice(part))
                 else:
@@ -512,6 +520,11 @@ class G:
                 if c[0] == "A":
                     opn = c[1]
                     k = r.choice(["ACC", "ACC", "FOP", "FOP", "GACC", "NOOP", "MULTI"])
+                    mode = c[2] if len(c) > 2 else "both"
+                    if mode == "acc":
+                        k = r.choice(["ACC", "MULTIA"])
+                    elif mode == "fetch":
+                        k = r.choice(["FOP", "GACC", "NOOP", "MULTIG"])
                     if k == "ACC":
                         l.append(self.mk_acc(q, w, t, (e, "e", 1, [e]), opn))
                     elif k == "FOP":
@@ -526,7 +539,10 @@ class G:
                         while (t, run[-1] + 1) in cls and cls[(t, run[-1] + 1)] == c and len(run) < 3:
                             run.append(run[-1] + 1)
                         reg = (e, "e", len(run), run)
-                        l.append(self.mk_acc(q, w, t, reg, opn) if r.random() < 0.5 else self.mk_gacc(q, w, t, reg, opn))
+                        if k == "MULTIA" or (k == "MULTI" and r.random() < 0.5):
+                            l.append(self.mk_acc(q, w, t, reg, opn))
+                        else:
+                            l.append(self.mk_gacc(q, w, t, reg, opn))
                 elif c[0] == "CAS":
                     if r.random() < 0.3:
                         l.append(self.mk_fop(q, w, t, e, "NO_OP"))
@@ -600,11 +616,21 @@ class G:
         if kinds is None:
             pool = {"clean": ["fence", "fence", "pscw", "excl", "excl", "shared", "shared"],
                     "t-unlock": ["excl"], "t-cas": ["excl", "shared"], "t-mixed": ["mixed"],
-                    "t-vecacc": ["fence", "pscw", "excl", "shared"]}[self.profile]
-            kinds = [r.choice(pool) for _ in range(r.choice([1, 2, 2, 3, 4] if self.profile == "clean" else [1, 1, 2]))]
+                    "t-vecacc": ["fence", "pscw", "excl", "shared"], "t-gaccrep": ["shared"], "t-fencepscw": []}[self.profile]
+            kinds = [r.choice(pool) for _ in range(r.choice([1, 2, 2, 3, 4] if self.profile == "clean" else [1, 1, 2]))] if pool else []
         for k in kinds:
             w = r.randrange(len(self.prog["wins"]))
             self.prog["phases"].append(getattr(self, "phase_" + k)(w))
+        if self.profile == "t-fencepscw":
+            # fence epochs closed without MPI_MODE_NOSUCCEED, then post/start/complete/wait on the same window
+            w = r.randrange(len(self.prog["wins"]))
+            self.prog["phases"] = [self.phase_fence(w, nep=1, last=0), self.phase_pscw(w, both=True)]
+        else:
+            # elsewhere the fence that precedes a PSCW use of the window carries MPI_MODE_NOSUCCEED
+            for i, ph in enumerate(self.prog["phases"]):
+                if ph["kind"] == "fence" and any(p["kind"] == "pscw" and p["w"] == ph["w"] for p in self.prog["phases"][i + 1:]):
+                    for ops in ph["ranks"].values():
+                        [o for o in ops if o["o"] == "FENCE"][-1]["a"] = 8
         strip(self.prog)
         return self.prog
 
